@@ -83,16 +83,17 @@ impl ProgProperty for C03 {
                         return Some(Outcome::Fail(Fail {
                             kind: "vote-mismatch".into(),
                             detail: format!("[{}] JIT differs from IR interpreter and bytecode interpreter (which agree) at event {i}: jit {} vs {}", tri[2].describe(c.bits), ev_string(&j.events[i.saturating_sub(3)..(i + 3).min(j.events.len())]), ev_string(&ir.events[i.saturating_sub(3)..(i + 3).min(ir.events.len())])),
+                            cfg: Some(2),
                         }));
                     }
                     record_bc_notes(&[Some(j.clone())], stats, "jit-forms");
                 }
                 Some(j) => {
                     if let End::Panicked(m) = &j.end {
-                        return Some(Outcome::Fail(Fail { kind: "panic".into(), detail: format!("[{}] {m}", tri[2].describe(c.bits)) }));
+                        return Some(Outcome::Fail(Fail { kind: "panic".into(), detail: format!("[{}] {m}", tri[2].describe(c.bits)), cfg: None }));
                     }
                     if let crate::child::Exit::Signal(s) = run.exit {
-                        return Some(Outcome::Fail(Fail { kind: format!("crash:{}", crate::child::signal_name(s)), detail: format!("[{}] JIT crashed where both interpreters finished", tri[2].describe(c.bits)) }));
+                        return Some(Outcome::Fail(Fail { kind: format!("crash:{}", crate::child::signal_name(s)), detail: format!("[{}] JIT crashed where both interpreters finished", tri[2].describe(c.bits)), cfg: Some(2) }));
                     }
                 }
                 None => {}
